@@ -138,9 +138,10 @@ def check_hints(ctx, S, parsed, ckey):
     f = ns["f"]
     ann = {p: Annotated[np.ndarray, ",".join(f"{n}:{q}" for n, q in arg)] for p, arg in zip(params, ins)}
     rets = [Annotated[np.ndarray, ",".join(f"{n}:{q}" for n, q in arg)] for arg in outs]
-    ann["return"] = rets[0] if len(rets) == 1 else Tuple[tuple(rets)]
-    f.__annotations__ = ann
+    # a single output may be declared bare or as a one-element tuple: the same signature
     want = sigm.render(ins, outs)
+    ann["return"] = (Tuple[rets[0]] if len(want) % 3 == 0 else rets[0]) if len(rets) == 1 else Tuple[tuple(rets)]
+    f.__annotations__ = ann
     try:
         gu = as_grid_ufunc()(f)
         if str(gu.signature) != want:
